@@ -12,6 +12,7 @@ import (
 	"context"
 	"fmt"
 	"strings"
+	"sync"
 	"sync/atomic"
 	"time"
 
@@ -30,7 +31,41 @@ const (
 	l3QueryTimeout = 10 * time.Second
 )
 
+// recStore sits between the resolver and the cache's Store and notes what the
+// resolver PUBLISHES (a later useful reply of the same request resets the
+// state again, so the retained state alone would hide a wrong record).
+type recStore struct {
+	inner  *cache.Store
+	mu     sync.Mutex
+	record []string
+	clear  []string
+}
+
+func (s *recStore) Get(req *dns.Msg) (*dns.Msg, bool) { return s.inner.Get(req) }
+func (s *recStore) GetWithContext(ctx context.Context, req *dns.Msg) (*dns.Msg, bool) {
+	return s.inner.GetWithContext(ctx, req)
+}
+func (s *recStore) SetFromResponse(resp *dns.Msg, keyCD bool, cutUntil time.Time) {
+	s.inner.SetFromResponse(resp, keyCD, cutUntil)
+}
+func (s *recStore) SetFromResponseWithCut(resp *dns.Msg, keyCD bool, cutUntil time.Time, cutKey uint64) {
+	s.inner.SetFromResponseWithCut(resp, keyCD, cutUntil, cutKey)
+}
+func (s *recStore) RecordZoneFailure(q dns.Question, zone string) {
+	s.mu.Lock()
+	s.record = append(s.record, strings.ToLower(zone))
+	s.mu.Unlock()
+	s.inner.RecordZoneFailure(q, zone)
+}
+func (s *recStore) ClearZoneFailure(q dns.Question, zone string) {
+	s.mu.Lock()
+	s.clear = append(s.clear, strings.ToLower(zone))
+	s.mu.Unlock()
+	s.inner.ClearZoneFailure(q, zone)
+}
+
 type l3Result struct {
+	published []string // zones the resolver published as failed during the first query
 	rcode     int
 	answered  bool
 	zones     []string // zone failure states retained afterwards
@@ -38,6 +73,7 @@ type l3Result struct {
 	sibEDE13  bool
 	sibAsked  bool // the sibling query reached some server of the zone
 	healthyUp bool
+	denied    bool // some server stated a denial (NXDOMAIN): a usable response
 }
 
 // behaviours: s servfail, r refused, n notimp, d drop, h healthy after delay, f healthy at once
@@ -51,7 +87,7 @@ func runL3Zone(spec []string, delay time.Duration) l3Result {
 	for len(servers) < len(spec) {
 		servers = append(servers, w.AddServer("multi.test."))
 	}
-	healthy := false
+	healthy, denied := false, false
 	for i, b := range spec {
 		rc := -1
 		switch b {
@@ -63,6 +99,7 @@ func runL3Zone(spec []string, delay time.Duration) l3Result {
 			rc = dns.RcodeNotImplemented
 		case "x":
 			rc = dns.RcodeNameError
+			denied = true
 		}
 		switch {
 		case rc >= 0:
@@ -82,13 +119,18 @@ func runL3Zone(spec []string, delay time.Duration) l3Result {
 		cfg.QueryTimeout.Duration = l3QueryTimeout
 	}})
 	defer p.Close()
-	res := l3Result{sibling: -1, healthyUp: healthy}
+	rec := &recStore{inner: cache.VerifC13StoreOf(p.Cache)}
+	p.Handler.SetStore(rec)
+	res := l3Result{sibling: -1, healthyUp: healthy, denied: denied}
 	if r := p.Query("www.multi.test.", dns.TypeA, l3.Flags{}); r != nil {
 		res.rcode = r.Rcode
 		res.answered = len(r.Answer) > 0
 	} else {
 		res.rcode = -1
 	}
+	rec.mu.Lock()
+	res.published = append([]string(nil), rec.record...)
+	rec.mu.Unlock()
 	fcx := cache.VerifC13FailureOf(p.Cache)
 	for _, e := range cache.VerifC13Entries(fcx) {
 		if e.Kind == cache.FailureKindZone {
@@ -118,6 +160,14 @@ func runL3Zone(spec []string, delay time.Duration) l3Result {
 }
 
 func judgeL3Zone(r l3Result) string {
+	for _, z := range r.published {
+		if z != "multi.test." {
+			return "FAIL sig=l3zone/zone-failure-published-for-a-zone-whose-servers-are-healthy zone=" + hexName(z)
+		}
+	}
+	if len(r.published) > 0 && (r.healthyUp || r.denied) {
+		return "FAIL sig=l3zone/zone-failure-published-although-a-server-gave-a-usable-response"
+	}
 	for _, z := range r.zones {
 		if z != "multi.test." {
 			// the parents' and the root's servers are healthy in every scenario
@@ -167,8 +217,8 @@ func execL3Zone(a []string) vlib.Res {
 	if l3Class(r) != want {
 		r = runL3Zone(spec, delay) // timing is never the verdict
 	}
-	zone := false
-	for _, z := range r.zones {
+	zone := false // did the resolver publish the zone as failed (even if a reply of the same request reset it again)
+	for _, z := range append(append([]string{}, r.zones...), r.published...) {
 		zone = zone || z == "multi.test."
 	}
 	return vlib.Res{Impl: fmt.Sprintf("class=%s zone=%s", l3Class(r), vlib.B(zone)), Oracle: or, Tags: "nt"}
